@@ -23,7 +23,7 @@ RULE = (
     "is injected at EVERY applicable position of that definition (enumerated, not sampled): a symbol shared by two of "
     "state/control/calibration (3 pairs x each symbol); update map missing a state / with an extra key / with a key "
     "swapped for an undeclared or control symbol; calibration map missing / extra / swapped key; process noise missing / "
-    "negative / keyed by a state, an undeclared symbol or a string; sensor expression using a control / an undeclared "
+    "negative / keyed by a state, an undeclared symbol, a string, or a pair of controls standing in for a control's own entry; sensor expression using a control / an undeclared "
     "symbol; sensor-noise map missing a sensor / with an extra sensor / missing a reading / naming an unknown reading; "
     "plus generated pairs of faults. Oracle: ui.Model refuses, or else every compile entry point the fault is visible to "
     "raises, returns nothing and writes no header/source. Buckets are (entry point, fault class). Non-trivial = the base "
@@ -94,6 +94,10 @@ def all_faults(m):
         F.append({"group": "process_noise", "cls": "process-noise-missing", "sym": c})
         F.append({"group": "process_noise", "cls": "process-noise-negative", "sym": c})
         F.append({"group": "process_noise", "cls": "process-noise-key-string", "sym": c})
+        for c2 in m["control"]:
+            if c2 != c:
+                # right number of entries, but one control's own noise is replaced by a cross term
+                F.append({"group": "process_noise", "cls": "process-noise-pair-instead-of-control", "sym": c, "other": c2})
     F.append({"group": "update", "cls": "update-extra-key-undeclared"})
     F.append({"group": "process_noise", "cls": "process-noise-for-undeclared"})
     for s in m["state"]:
@@ -158,6 +162,9 @@ def apply_fault(a, f):
         a["process_noise"][sym] = -abs(a["process_noise"][sym])
     elif cls == "process-noise-key-string":
         a["process_noise"][str(sym)] = a["process_noise"].pop(sym)
+    elif cls == "process-noise-pair-instead-of-control":
+        del a["process_noise"][sym]
+        a["process_noise"][(sym, other)] = 0.0
     elif cls == "process-noise-for-undeclared":
         a["process_noise"][und] = 0.5
     elif cls == "process-noise-for-state":
